@@ -460,7 +460,15 @@ def ex_JoinedStr(self, node, fr):
         if isinstance(v, ast.Constant):
             parts.append(lift(v.value))
         elif isinstance(v, ast.FormattedValue):
-            spec = ast.unparse(v.format_spec) if v.format_spec is not None else ''
+            spec = ''
+            if v.format_spec is not None:
+                fs = v.format_spec
+                if isinstance(fs, ast.JoinedStr) and all(isinstance(x, ast.Constant) for x in fs.values):
+                    spec = ''.join(str(x.value) for x in fs.values)
+                else:
+                    spec = ast.unparse(fs)
+            if v.conversion not in (-1, None):
+                spec = '!' + chr(v.conversion) + spec
             parts.append(T.mk_call('fmt', [self.ev(v.value, fr), lift(spec)]))
     return T.mk_call('fstr', parts)
 
